@@ -195,6 +195,20 @@ SerDeAccepts(s) ==
   /\ {freed[k] : k \in DOMAIN freed} \cup stored = 0..(n - 1)
 
 -----------------------------------------------------------------------------
+(* World::eq (src/world/impl_eq.rs, src/archetypes/impl_eq.rs, src/archetype/mod.rs component_eq,    *)
+(* src/entity/allocator/mod.rs): same len; same number of tables and every table of `a` has a table   *)
+(* of `b` with the same identifier bytes, the same identifier column (in order) and the same          *)
+(* columns (in order); same slots (generation, table bytes, row) and the same free list (in order).   *)
+(* The lookup tables, table order and capacities are not compared.                                    *)
+StoreEq(a, b) ==
+  /\ a.len = b.len
+  /\ Cardinality(TableKeys(a)) = Cardinality(TableKeys(b))
+  /\ \A k \in TableKeys(a) : k \in TableKeys(b) /\ a.tables[k].ids = b.tables[k].ids
+                                                 /\ a.tables[k].cols = b.tables[k].cols
+  /\ a.slots = b.slots
+  /\ a.free = b.free
+
+-----------------------------------------------------------------------------
 (* abstraction function: the reference map represented by a store             *)
 RefMap(s) ==
   LET stored == UNION {{<<b, k>> : k \in DOMAIN s.tables[b].ids} : b \in TableKeys(s)} IN
